@@ -424,7 +424,11 @@ def check_verified(ctx, sm):
             calls.append((cand[0].attrs.get('type') if okc else None, okc))
             return bool(okc and cand[0].attrs.get('type') in accepted)
         it.stubs['self.query_is_valid'] = valid
-        self_ = Obj('ErrorHandling', lexer=lexer, parser=Obj('Parser'), tokens=list(toks), bad_token=bad, expected_tokens=list(names))
+        # the parser object as sly leaves it when parse() has returned after a syntax error: its current state is the start state again (error recovery discards
+        # the stack), and the start state shifts tokens that can begin a statement - here: the first candidate, which the error state only lists as a look-ahead
+        lrt = Obj('LRTable', lr_action={0: dict({n_: 7 for n_ in names[:1]}, SELECT=3), 7: {}}, lr_goto={0: {}}, defaulted_states={})
+        parser = Obj('Parser', state=0, statestack=[0], symstack=[Obj('YaccSymbol', type='$end')], _lrtable=lrt, error_info=None)
+        self_ = Obj('ErrorHandling', lexer=lexer, parser=parser, tokens=list(toks), bad_token=bad, expected_tokens=list(names))
         try:
             res = it.call_function(fn, [self_], {}, Env())
             res = list(res) if isinstance(res, (list, tuple)) else [res]
